@@ -112,7 +112,8 @@ def r04_2(ctx):
                     ok = any(v2 and g.startswith("self.in_html_elem_named(atom:template)") for g, v2 in pc["guards"].items())
                     repl = any(b == "self.template_modes.push" for b, _ in pc["actions"][i + 1:])
                     ok = ok or repl
-                    ctx.ob("R04.2", "template_modes-popped-only-with-open-template/%s" % fname, ok, "guarded by in_html_elem_named(template)" if not repl else "pop-then-push pair (the current template mode is replaced)" if ok else
+                    ctx.ob("R04.2", "template_modes-popped-only-with-open-template/%s" % fname, ok,
+                           ("pop-then-push pair (the current template mode is replaced)" if repl else "guarded by in_html_elem_named(template)") if ok else
                            "template_modes is popped on a path that has not established that a template element is open: with a template fragment context the whole stack of open elements can be popped and the next token panics with 'no current element'",
                            "html5ever tree_builder " + fname)
                 if a == "self.pop_until_current" and args:
